@@ -72,6 +72,9 @@ type Engine struct {
 	Prog       *ssa.Program
 	Intrinsics map[string]Intrinsic
 	Subst      map[string]*ssa.Function // fully-qualified function -> harness replacement
+	Merge      map[string]bool          // fully-qualified pure loop-free scalar functions evaluated by path merging (merge.go)
+	mergeOK    map[*ssa.Function]bool
+	MergedCalls int
 	MaxLoop    int
 	LoopBounds map[string]int // function name -> unwinding bound for its loops (overrides MaxLoop)
 	UnwindIgnore bool // paths cut by an unwinding bound are dropped silently (stated in the evidence)
